@@ -74,19 +74,24 @@ def run(sid, props, checks=None):
     checkout -- .` and can run while /repo is in use."""
     dst = os.path.join(SEEDED, sid)
     patch = os.path.join(dst, "patch.diff")
-    wt = f"/tmp/verif-seed-{sid}"
-    outdir = f"/tmp/verif-seed-out-{sid}"
+    # (pid in the names: a background run of the regression net and a manual
+    # run of the same seed must not share a scratch worktree)
+    wt = f"/tmp/verif-seed-{sid}-{os.getpid()}"
+    outdir = f"/tmp/verif-seed-out-{sid}-{os.getpid()}"
     sh(["git", "-C", "/repo", "worktree", "remove", "--force", wt])
     shutil.rmtree(wt, ignore_errors=True)
     shutil.rmtree(outdir, ignore_errors=True)
     rc, out = sh(["git", "-C", "/repo", "worktree", "add", "--detach", wt, "HEAD"])
     assert rc == 0, out
     rc, out = sh(["git", "apply", patch], cwd=wt)
-    assert rc == 0, out
+    if rc != 0:
+        sh(["git", "-C", "/repo", "worktree", "remove", "--force", wt])
+        print(sid, " ".join(props), "PATCH-DOES-NOT-APPLY to the current /repo HEAD:", out.strip().splitlines()[0] if out.strip() else "")
+        return
     results = {}
     env = dict(ENV, VERIF_REPO=wt, VERIF_OUT=outdir)
     if MATRIX:
-        env["VERIF_KEEP_BINARY"] = f"/tmp/verif-seed-bin-{sid}.test"
+        env["VERIF_KEEP_BINARY"] = f"/tmp/verif-seed-bin-{sid}-{os.getpid()}.test"
     try:
         for p in props:
             cmd = [os.path.join(ROOT, "check"), p]
@@ -123,7 +128,7 @@ def run(sid, props, checks=None):
                     shutil.copy(os.path.join(rp, f), os.path.join(keep, f"{prop}.json"))
         shutil.rmtree(outdir, ignore_errors=True)
         try:
-            os.remove(f"/tmp/verif-seed-bin-{sid}.test")
+            os.remove(f"/tmp/verif-seed-bin-{sid}-{os.getpid()}.test")
         except OSError:
             pass
     meta_path = os.path.join(dst, "meta.json")
